@@ -81,11 +81,13 @@ def run(tier, seed):
     n = 40 if tier == "quick" else 2000
     tag = "c19s%d" % seed
     for i in range(n):
-        k = rng.choice(["anon-then-named-prefix", "define-dup-name", "define-dup-symbol", "define-space", "alias-conflict-symbol",
+        k = rng.choice(["prefix-symbol-then-conflict", "prefix-name-then-conflict", "anon-then-named-prefix", "define-dup-name", "define-dup-symbol", "define-space", "alias-conflict-symbol",
                         "alias-space", "alias-dup-name", "derive-dup", "prefix-dup-symbol", "named-ok", "derive-ok"])
         u = "%s_%d" % (tag, i)
         code = {
             "anon-then-named-prefix": "import measured\nb = {b}\nanon = measured.Prefix(b, {e})\np = measured.Prefix(b, {e}, name='{u}n', symbol='{u}s')\nok = p is anon and measured.Prefix._by_name.get('{u}n') is p and measured.Prefix._by_symbol.get('{u}s') is p and p.name == '{u}n' and p.symbol == '{u}s'\n",
+            "prefix-symbol-then-conflict": "import measured\np = measured.Prefix({b}, {e}, symbol='{u}s1')\nbefore = snapshot()\ntry:\n    measured.Prefix({b}, {e}, name='{u}n', symbol='{u}s2')\n    raised = False\nexcept ValueError:\n    raised = True\nok = raised and snapshot()[5:8] == before[5:8]\n",
+            "prefix-name-then-conflict": "import measured\np = measured.Prefix({b}, {e}, name='{u}n1')\nbefore = snapshot()\ntry:\n    measured.Prefix({b}, {e}, name='{u}n2', symbol='{u}s')\n    raised = False\nexcept ValueError:\n    raised = True\nok = raised and snapshot()[5:8] == before[5:8]\n",
             "define-dup-name": "import measured\nbefore = snapshot()\ntry:\n    measured.Unit.define(measured.Length, 'meter', '{u}')\n    raised = False\nexcept ValueError:\n    raised = True\nok = raised and snapshot() == before\n",
             "define-dup-symbol": "import measured\nbefore = snapshot()\ntry:\n    measured.Unit.define(measured.Length, '{u}', 'm')\n    raised = False\nexcept ValueError:\n    raised = True\nok = raised and snapshot() == before\n",
             "define-space": "import measured\nbefore = snapshot()\ntry:\n    measured.Unit.define(measured.Length, '{u}', '{u} x')\n    raised = False\nexcept ValueError:\n    raised = True\nok = raised and snapshot() == before\n",
